@@ -54,6 +54,21 @@ type Context interface {
 	GetRunningElementFor(page Box, name, keyword string) Box
 }
 
+// runningElementContext is the context used for the generated content of the
+// running element [name], while it is copied in a page margin : a reference to
+// the same element from there would never end.
+type runningElementContext struct {
+	Context
+	name string
+}
+
+func (r runningElementContext) GetRunningElementFor(page Box, name, keyword string) Box {
+	if name == r.name {
+		return nil
+	}
+	return r.Context.GetRunningElementFor(page, name, keyword)
+}
+
 type URLResolver struct {
 	Fetch      utils.UrlFetcher
 	FetchImage ImageFetcher
@@ -725,9 +740,10 @@ outerLoop:
 					if content := child.Box().Style.GetContent(); content.String == "normal" || content.String == "none" {
 						continue
 					}
+					// the content of the running element may not refer to the element itself
 					child.Box().Children = ContentToBoxes(
 						child.Box().Style, child, quoteDepth, counterValues,
-						resolver, targetCollector, cs, context, page)
+						resolver, targetCollector, cs, runningElementContext{context, value[0]}, page)
 				}
 			}
 			contentBoxes = append(contentBoxes, newBox)
